@@ -59,9 +59,25 @@ def _through_val(e):
     return None
 
 
+def _callers(prog):
+    """{callee (template arguments stripped): set of callers (stripped)} over the resolved program"""
+    out = {}
+    for f in prog.functions.values():
+        if 'body' not in f:
+            continue
+        me = strip_tmpl(f['qn'])
+        for x in walk(f['body']):
+            if isinstance(x, dict) and x.get('k') == 'call':
+                cal = prog.callee(x, f)
+                if cal is not None:
+                    out.setdefault(strip_tmpl(cal.get('qn', '')), set()).add(me)
+    return out
+
+
 def rule_field_layer(ctx, cfg, prog, rule='R-FIELDLAYER'):
     sites = inside = 0
     claimed, reported = set(), set()
+    callers = None
     for f in prog.functions.values():
         if 'body' not in f or not f['l'][0].startswith(('src/', 'include/')):
             continue
@@ -93,6 +109,28 @@ def rule_field_layer(ctx, cfg, prog, rule='R-FIELDLAYER'):
             inside += len(writes)
             qn = strip_tmpl(f['qn'])
             claimed.add(qn)
+            if qn not in PRIMITIVES and qn not in reported and is_field_rec(f.get('parent')):
+                # a helper of the field records that is reached only from decided primitives is part of them: their obligations (R-CANON
+                # with the helper inlined, the word-level identities of R-WORDALG/c++) are decided on the composition
+                if callers is None:
+                    callers = _callers(prog)
+                cs = callers.get(qn, set())
+                seen, work, okh = set(), list(cs), bool(cs)
+                while work and okh:
+                    c = work.pop()
+                    if c in seen or c in PRIMITIVES:
+                        continue
+                    seen.add(c)
+                    cf = [g_ for g_ in prog.functions.values() if strip_tmpl(g_['qn']) == c]
+                    if c != qn and cf and all(is_field_rec(g_.get('parent')) for g_ in cf) and callers.get(c):
+                        work += list(callers[c])      # a helper of a helper
+                    elif c != qn:
+                        okh = False
+                if okh:
+                    reported.add(qn)
+                    ctx.ob(rule, True, 'fieldlayer|helper|' + qn, loc_str(f), '', cfg=cfg,
+                           sample=dict(config=cfg, helper=qn, reached_only_from=sorted(x_ for x_ in cs if x_ in PRIMITIVES)))
+                    continue
             if qn not in PRIMITIVES and qn not in reported:
                 reported.add(qn)
                 x = writes[0][0]
